@@ -27,7 +27,10 @@ type Call struct {
 }
 
 // Recorder collects the invocations of custom functions.
-type Recorder struct{ Calls []Call }
+type Recorder struct {
+	Calls []Call
+	Off   bool // set before real goroutines start: record nothing
+}
 
 // Describe prints a Go value with its dynamic types, canonically.
 func Describe(v any) string {
@@ -74,6 +77,9 @@ func (w *World) register(op Op) error {
 	id := op.Fn
 	note := func(recv any, args []any) {
 		simrt.Yield(simrt.SiteUser)
+		if rec.Off {
+			return
+		}
 		rec.Calls = append(rec.Calls, Call{id, recv, args})
 	}
 	switch op.Recv {
